@@ -157,7 +157,7 @@ impl Scenario for ShuffleScenario {
         let malicious = self.tampered || r.chance(1, 2);
         let est = 3000 + n as u64 * 500 * shards as u64;
         let mut p = json!({"shards": shards, "row": row, "n": n, "assign": assign, "malicious": malicious,
-            "value_seed": r.next_u64() >> 12, "knobs": draw_knobs(&mut r)});
+            "value_seed": r.next_u64() >> 12, "knobs": draw_knobs(&mut r), "node_tasks": r.chance(1, 2)});
         if self.tampered {
             p["corrupt"] = json!(r.below(3));
             p["site_seed"] = json!(r.next_u64() >> 12);
@@ -205,24 +205,30 @@ struct OneRun {
     inv: BTreeMap<ChanKey, ChanStat>,
     fired: Vec<Value>,
     forge_too_early: u64,
+    key_shares: BTreeMap<(usize, usize), [u8; 4]>,
 }
 
 macro_rules! make_exec {
     ($name:ident, $run:ident, $n:literal) => {
-        fn $run<S: Row>(p: &Value, spec: &SchedSpec, values: &[u128], site: Option<Site>) -> OneRun {
+        fn $run<S: Row>(p: &Value, spec: &SchedSpec, values: &[u128], site: Option<Site>, own_keys: Option<(&BTreeMap<(usize, usize), [u8; 4]>, usize)>) -> OneRun {
             let assign = pvec(p, "assign");
             let malicious = pb(p, "malicious");
             let knobs = &p["knobs"];
             let (active, read_size, world_seed) = (pu(knobs, "active"), pu(knobs, "read_size"), pu64(knobs, "world_seed"));
             let value_seed = pu64(p, "value_seed");
+            let node_tasks = p.get("node_tasks").and_then(Value::as_bool) == Some(true);
             let log: NodeLog<NodeRes> = node_log();
             let log2 = StdArc::clone(&log);
-            let (tamper, interceptor) = faults::tamper(site);
+            let (tamper, interceptor) = match own_keys {
+                Some((k, c)) => faults::tamper_knowing_own_keys(site, k, c),
+                None => faults::tamper(site),
+            };
             let values: Vec<u128> = values.to_vec();
             let outcome = sim_async(spec, StdArc::new(AtomicBool::new(false)), move || {
                 let log = StdArc::clone(&log2);
                 let (assign, values, interceptor) = (assign.clone(), values.clone(), interceptor.clone());
                 async move {
+                    let assign2 = assign.clone();
                     ASSIGN.with(|a| *a.borrow_mut() = assign);
                     let world = TestWorld::<WithShards<$n, PlanDistribute>>::with_shards(&world_config(world_seed, active, read_size, Some(interceptor)));
                     // share the rows ourselves so that values are attributable and seeds explicit
@@ -233,6 +239,44 @@ macro_rules! make_exec {
                         per_helper[0].push(a);
                         per_helper[1].push(b);
                         per_helper[2].push(c);
+                    }
+                    if node_tasks {
+                        // every (helper, shard) node is a task of its own: the scheduler also decides which node moves next (the
+                        // stock runner polls all nodes from one task in a fixed order). The world is leaked so that the tasks can
+                        // borrow it for 'static; the worker process is short-lived.
+                        let world: &'static TestWorld<WithShards<$n, PlanDistribute>> = Box::leak(Box::new(world));
+                        let mut per: Vec<Vec<Vec<S>>> = (0..3).map(|_| (0..$n).map(|_| Vec::new()).collect()).collect();
+                        let [h0, h1, h2] = per_helper;
+                        for (h, rows) in [h0, h1, h2].into_iter().enumerate() {
+                            for (i, x) in rows.into_iter().enumerate() {
+                                per[h][assign2.get(i).copied().unwrap_or(i) % $n].push(x);
+                            }
+                        }
+                        let mut handles = Vec::new();
+                        macro_rules! spawn_nodes {
+                            ($ctxs:expr) => {
+                                for (h, v) in $ctxs.into_iter().enumerate() {
+                                    for (sh, ctx) in v.into_iter().enumerate() {
+                                        let rows = std::mem::take(&mut per[h][sh]);
+                                        let log = StdArc::clone(&log);
+                                        handles.push(shuttle::future::spawn(async move {
+                                            let key = (role_idx(ctx.role()), usize::from(ctx.shard_id()));
+                                            let r = ctx.sharded_shuffle(rows).await;
+                                            log.lock().unwrap().insert(key, r.map(|v| v.iter().map(Row::lr).collect()).map_err(|e| e.to_string()));
+                                        }));
+                                    }
+                                }
+                            };
+                        }
+                        if malicious {
+                            spawn_nodes!(world.malicious_contexts());
+                        } else {
+                            spawn_nodes!(world.contexts());
+                        }
+                        for h in handles {
+                            h.await.unwrap();
+                        }
+                        return;
                     }
                     let input = Shared3(per_helper);
                     let log = &log;
@@ -256,7 +300,7 @@ macro_rules! make_exec {
                 }
             });
             let t = tamper.log.lock().unwrap();
-            OneRun { outcome, nodes: log.lock().unwrap().clone(), inv: t.chans.clone(), fired: t.fired.clone(), forge_too_early: t.forge_too_early }
+            OneRun { outcome, nodes: log.lock().unwrap().clone(), inv: t.chans.clone(), fired: t.fired.clone(), forge_too_early: t.forge_too_early, key_shares: t.key_shares.clone() }
         }
 
         fn $name<S: Row>(p: &Value, explicit: Option<Vec<u32>>, tampered: bool) -> RunRes {
@@ -286,10 +330,10 @@ macro_rules! make_exec {
             let n = values.len();
             let spec = SchedSpec::from_json(&p["sched"], explicit);
             let empties = (0..shards).filter(|s| !assign[..n].contains(s)).count();
-            let shape = format!("shuffle s{shards} {} n{n} m{} e{empties} t{}", S::NAME, u8::from(malicious), u8::from(tampered));
+            let shape = format!("shuffle s{shards} {} n{n} m{} e{empties} t{} k{}", S::NAME, u8::from(malicious), u8::from(tampered), u8::from(p.get("node_tasks").and_then(Value::as_bool) == Some(true)));
 
             // -------- honest run (also the channel inventory for the tampered run) --------
-            let honest = $run::<S>(p, &spec, &values, None);
+            let honest = $run::<S>(p, &spec, &values, None, None);
             if let Some(v) = judge_honest(&honest, &values, shards, &shape) {
                 return v;
             }
@@ -321,7 +365,7 @@ macro_rules! make_exec {
             let Some(site) = site else {
                 return RunRes::inconclusive("no_site", "no channel of the corrupt helper in the inventory".into(), shape, Some(honest.outcome));
             };
-            let bad = $run::<S>(p, &spec, &values, Some(site.clone()));
+            let bad = $run::<S>(p, &spec, &values, Some(site.clone()), if adaptive { Some((&honest.key_shares, corrupt)) } else { None });
             if adaptive && bad.fired.is_empty() {
                 // the keys were never known to the corrupt helper while its table was still going out: no opportunity
                 let mut r = RunRes::pass(shape, true, Some(bad.outcome.clone()));
